@@ -6,6 +6,7 @@ package verifsim
 // decision from the tape.
 
 import (
+	"encoding/json"
 	"context"
 	"fmt"
 	"io"
@@ -62,6 +63,7 @@ type AttemptPlan struct {
 // Scenario is a complete simulated run.
 type Scenario struct {
 	Bystander    bool  // another Streamer with the same server id streams from a master of its own in the same process, all the time
+	MarshalTx    bool  // C08: the consumer encodes every transaction it is given with json.Marshal
 	ValuesOnly   bool  // C08: the consumer keeps only the delivered value slices, drops the Transaction, and the garbage collector runs between deliveries
 	StartHigh    int64 // added to the start offset given to SetBinlogPosition (a multiple of 2^32)
 	Hist         *History
@@ -269,6 +271,16 @@ func (r *Run) handler(tx *gobinlog.Transaction) error {
 		r.mu.Unlock()
 		st.SetBinlogPosition(np)
 		r.mu.Lock()
+	}
+	if r.sc.MarshalTx && tx != nil {
+		// a consumer that forwards what it gets as JSON (the library's own encoder,
+		// what cmd/binlogDump does): reading a transaction must not change it
+		r.mu.Unlock()
+		_, _ = json.Marshal(tx)
+		r.mu.Lock()
+		if d := snapDiff(call.Snap, snapshotTx(tx)); d != "" {
+			call.MarshalNote = "encoding the delivered transaction with json.Marshal changed it: " + d
+		}
 	}
 	if r.sc.Scribble && tx != nil {
 		call.ScribbleNote = scribble(tx, call.Snap)
